@@ -15,33 +15,6 @@ pub trait JsErrorClass {}
 pub mod wasm_dep_analyzer { pub use super::WasmParseError as ParseError; }
 pub mod fast_check { pub use super::{FastCheckDiagnostic, FastCheckDtsModule}; }
 
-pub struct IndexSet<K> { _k: core::marker::PhantomData<K> }
-pub struct IndexSetIter<'a, K> { _m: &'a IndexSet<K> }
-impl<K> IndexSet<K> {
-  pub fn contains(&self, _k: &K) -> bool { unimplemented!() }
-  pub fn iter(&self) -> IndexSetIter<'_, K> { unimplemented!() }
-  pub fn len(&self) -> usize { unimplemented!() }
-}
-impl<K> Clone for IndexSet<K> { fn clone(&self) -> Self { unimplemented!() } }
-impl<'a, K> Iterator for IndexSetIter<'a, K> { type Item = &'a K; fn next(&mut self) -> Option<&'a K> { unimplemented!() } }
-
-// indexmap::IndexMap / IndexSet: insertion-ordered maps.  Only the operations the extracted code
-// uses exist on the stand-in; each has an assumed specification over the view `im_view`.
-pub struct IndexMap<K, V> { _k: core::marker::PhantomData<K>, _v: core::marker::PhantomData<V> }
-pub struct IndexMapValues<'a, K, V> { _m: &'a IndexMap<K, V> }
-pub struct IndexMapIter<'a, K, V> { _m: &'a IndexMap<K, V> }
-impl<K, V> IndexMap<K, V> {
-  pub fn get<Q: ?Sized>(&self, _k: &Q) -> Option<&V> { unimplemented!() }
-  pub fn values(&self) -> IndexMapValues<'_, K, V> { unimplemented!() }
-  pub fn iter(&self) -> IndexMapIter<'_, K, V> { unimplemented!() }
-  pub fn len(&self) -> usize { unimplemented!() }
-  pub fn is_empty(&self) -> bool { unimplemented!() }
-}
-impl<K, V> Clone for IndexMap<K, V> { fn clone(&self) -> Self { unimplemented!() } }
-impl<'a, K, V> Iterator for IndexMapValues<'a, K, V> { type Item = &'a V; fn next(&mut self) -> Option<&'a V> { unimplemented!() } }
-impl<'a, K, V> Iterator for IndexMapIter<'a, K, V> { type Item = (&'a K, &'a V); fn next(&mut self) -> Option<(&'a K, &'a V)> { unimplemented!() } }
-impl<'a, K, V> IntoIterator for &'a IndexMap<K, V> { type Item = (&'a K, &'a V); type IntoIter = IndexMapIter<'a, K, V>; fn into_iter(self) -> IndexMapIter<'a, K, V> { unimplemented!() } }
-
 verus! {
 
 #[verifier::external_type_specification] #[verifier::external_body] pub struct ExSystemTime(SystemTime);
@@ -61,103 +34,5 @@ verus! {
 #[verifier::external_type_specification] #[verifier::external_body] pub struct ExNpmPackageReqReference(NpmPackageReqReference);
 #[verifier::external_type_specification] #[verifier::external_body] pub struct ExFastCheckDiagnostic(FastCheckDiagnostic);
 #[verifier::external_type_specification] #[verifier::external_body] pub struct ExFastCheckDtsModule(FastCheckDtsModule);
-
-// ---- IndexMap<String, V>: view = insertion-ordered sequence of (key text, value), keys distinct
-#[verifier::external_type_specification]
-#[verifier::external_body]
-#[verifier::reject_recursive_types(K)]
-#[verifier::accept_recursive_types(V)]
-pub struct ExIndexMap<K, V>(IndexMap<K, V>);
-
-#[verifier::external_type_specification]
-#[verifier::external_body]
-#[verifier::reject_recursive_types(K)]
-#[verifier::accept_recursive_types(V)]
-pub struct ExIndexMapValues<'a, K, V>(IndexMapValues<'a, K, V>);
-
-#[verifier::external_type_specification]
-#[verifier::external_body]
-#[verifier::reject_recursive_types(K)]
-#[verifier::accept_recursive_types(V)]
-pub struct ExIndexMapIter<'a, K, V>(IndexMapIter<'a, K, V>);
-
-#[verifier::external_type_specification]
-#[verifier::external_body]
-#[verifier::reject_recursive_types(K)]
-pub struct ExIndexSet<K>(IndexSet<K>);
-
-#[verifier::external_type_specification]
-#[verifier::external_body]
-#[verifier::reject_recursive_types(K)]
-pub struct ExIndexSetIter<'a, K>(IndexSetIter<'a, K>);
-
-/// IndexSet view: insertion-ordered sequence without duplicates
-pub uninterp spec fn is_seq<K>(s: IndexSet<K>) -> Seq<K>;
-pub proof fn axiom_index_set_wf<K>(s: IndexSet<K>)
-    ensures is_seq(s).no_duplicates(), is_seq(s).len() < usize::MAX,
-{ admit(); }
-pub assume_specification<K>[ IndexSet::<K>::contains ](s: &IndexSet<K>, k: &K) -> (r: bool)
-    ensures r == is_seq(*s).contains(*k);
-pub assume_specification<K>[ IndexSet::<K>::iter ](s: &IndexSet<K>) -> (r: IndexSetIter<'_, K>)
-    ensures
-        r.obeys_prophetic_iter_laws(),
-        r.remaining().len() == is_seq(*s).len(),
-        forall|i: int| 0 <= i < is_seq(*s).len() ==> *(#[trigger] r.remaining()[i]) == is_seq(*s)[i];
-pub assume_specification<K>[ IndexSet::<K>::len ](s: &IndexSet<K>) -> (r: usize)
-    ensures r == is_seq(*s).len();
-
-pub uninterp spec fn im_keys<K, V>(m: IndexMap<K, V>) -> Seq<K>;
-pub uninterp spec fn im_vals<K, V>(m: IndexMap<K, V>) -> Seq<V>;
-
-/// does the stored key `k` equal the lookup key `q` (indexmap's `Equivalent`)
-pub uninterp spec fn key_eq<K, Q: ?Sized>(k: K, q: &Q) -> bool;
-
-pub proof fn axiom_key_eq()
-    ensures
-        forall|k: String, q: &str| #[trigger] key_eq(k, q) == (k@ == q@),
-        forall|k: Url, q: &Url| #[trigger] key_eq(k, q) == (k == *q),
-{ admit(); }
-
-pub proof fn axiom_index_map_wf<K, V>(m: IndexMap<K, V>)
-    ensures
-        im_keys(m).len() == im_vals(m).len(),
-        im_keys(m).no_duplicates(),
-{ admit(); }
-
-/// `IndexMap<String, V>` keys are distinct as texts
-pub proof fn axiom_index_map_string_keys<V>(m: IndexMap<String, V>)
-    ensures
-        forall|i: int, j: int| 0 <= i < im_keys(m).len() && 0 <= j < im_keys(m).len() && im_keys(m)[i]@ == im_keys(m)[j]@ ==> i == j,
-{ admit(); }
-
-pub open spec fn im_get<V>(m: IndexMap<String, V>, k: Seq<char>) -> Option<V> {
-    if exists|i: int| 0 <= i < im_keys(m).len() && im_keys(m)[i]@ == k {
-        let i = choose|i: int| 0 <= i < im_keys(m).len() && im_keys(m)[i]@ == k;
-        Some(im_vals(m)[i])
-    } else { None }
-}
-pub open spec fn im_get_url<V>(m: IndexMap<Url, V>, k: Url) -> Option<V> {
-    if exists|i: int| 0 <= i < im_keys(m).len() && im_keys(m)[i] == k {
-        let i = choose|i: int| 0 <= i < im_keys(m).len() && im_keys(m)[i] == k;
-        Some(im_vals(m)[i])
-    } else { None }
-}
-
-pub assume_specification<'a, K, V, Q: ?Sized>[ IndexMap::<K, V>::get::<Q> ](m: &'a IndexMap<K, V>, k: &Q) -> (r: Option<&'a V>)
-    ensures
-        r is Some <==> (exists|i: int| 0 <= i < im_keys(*m).len() && key_eq(#[trigger] im_keys(*m)[i], k)),
-        r is Some ==> (exists|i: int| 0 <= i < im_keys(*m).len() && key_eq(#[trigger] im_keys(*m)[i], k) && im_vals(*m)[i] == *r.unwrap());
-
-pub assume_specification<K, V>[ IndexMap::<K, V>::values ](m: &IndexMap<K, V>) -> (r: IndexMapValues<'_, K, V>)
-    ensures
-        r.obeys_prophetic_iter_laws(),
-        r.remaining().len() == im_vals(*m).len(),
-        forall|i: int| 0 <= i < im_vals(*m).len() ==> *(#[trigger] r.remaining()[i]) == im_vals(*m)[i];
-
-pub assume_specification<K, V>[ IndexMap::<K, V>::len ](m: &IndexMap<K, V>) -> (r: usize)
-    ensures r == im_vals(*m).len();
-
-pub assume_specification<K, V>[ IndexMap::<K, V>::is_empty ](m: &IndexMap<K, V>) -> (r: bool)
-    ensures r == (im_vals(*m).len() == 0);
 
 } // verus!
